@@ -24,13 +24,14 @@ ORDER = ["side_partial_cmp", "ub_partial_cmp", "ub_matches", "ub_try_into_range"
          "ub_new", "ub_from_range", "ub_unpack", "ub_complement",
          "ubl_bounds_only", "ubl_is_sortable", "ubl_is_sorted", "ubl_has_negative_indices", "ubl_is_forward_only",
          "fast_try_from", "stream_try_from", "side_from_str", "ub_from_str",
-         "ubl_unpack", "ubl_complement"]
+         "ubl_unpack", "ubl_complement", "cut_bytes"]
 DEPS = {"ub_partial_cmp": ["side_partial_cmp"], "ub_from_range": ["ub_new"], "ub_unpack": ["ub_new", "ub_try_into_range"],
         "ub_complement": ["ub_try_into_range", "complement_std_range", "ub_from_range", "ub_new"],
         "ubl_is_sortable": ["ubl_bounds_only"], "ubl_is_sorted": ["ubl_bounds_only", "ub_partial_cmp", "side_partial_cmp"],
         "ubl_has_negative_indices": ["ubl_bounds_only"],
         "ub_from_str": ["side_from_str", "ub_new"],
         "ubl_unpack": ["ub_unpack", "ub_new", "ub_try_into_range"],
+        "cut_bytes": ["ub_try_into_range", "ubl_unpack", "ub_unpack", "ub_new"],
         "ubl_complement": ["ub_complement", "ub_try_into_range", "complement_std_range", "ub_from_range", "ub_new", "ubl_unpack",
                            "ubl_has_negative_indices", "ubl_bounds_only"],
         "ubl_is_forward_only": ["ubl_bounds_only", "ubl_is_sortable", "ubl_is_sorted", "ubl_has_negative_indices", "ub_partial_cmp", "side_partial_cmp"]}
@@ -56,6 +57,7 @@ USES = {
     "ub_from_str": ["C12", "C18"],
     "ubl_unpack": ["C07", "C08", "C13"],
     "ubl_complement": ["C13", "C15"],
+    "cut_bytes": ["C06", "C13"],
 }
 LEMMA = {n: "tie_" + n for n in ORDER}
 
